@@ -21,7 +21,7 @@
 import MdIt.Props.Block
 import MdIt.Props.C10
 
-namespace MdIt.Block
+namespace MdIt.Block.LE
 open MdIt.Lines (LineOffset)
 
 /-! ## lock-step results -/
@@ -743,4 +743,4 @@ macro_rules
 
 end reads
 
-end MdIt.Block
+end MdIt.Block.LE
